@@ -113,6 +113,7 @@ def run(ctx):
                 "variant, x chunkings whole/1-byte/per-request/every 2-way split/complete requests plus a proper prefix of the next), requests of 1022..4100 elements, and every registered command x every argument "
                 "vector of MC_Cmd placed between two ECHOs; distinct = distinct (command, arity) pipelines; all are non-trivial "
                 "(each has at least one request whose reply must be paired)",
+        "idle_connections_probed": nidle,
         "samples": samples or [{"requests": connlib.request_names(lines[scs[0]])}],
         "exhaustive": True, "pipelines": npipes, "command_vectors": ncmds,
     }, assumptions=["liveness is judged when the scripted transport's Read is called with an empty buffer (block event); "
